@@ -80,6 +80,27 @@ CHECKS = {
                 "L2 is a paper argument (the stub's contract is L1)",
         "technique": "symbolic execution of the Python source on z3 real terms + SMT (QF_NRA) obligations per path; nondeterministic stub for the structural lemma; counterexample replay",
     },
+    "C10": {
+        "text": "S: subdivideCubicPath (with bezmisc.beziersplitatt executed symbolically) on node lists with symbolic control points and a "
+                "nondeterministic flatness stub limited to K 'not flat' answers: on every path the final pieces are proved (linear "
+                "identities) equal to the blossom restriction of the original pieces to the dyadic intervals of an independently "
+                "maintained model, outer handles untouched, every final piece judged flat. F: the real predicate on 4 symbolic points "
+                "returns True exactly when both inner control points are within the flatness of the chord (QF_NRA). T: (i) second "
+                "differences of the halves are D1/4, (D1+D2)/8, D2/4; (ii, thorough) small second differences imply 'flat'.",
+        "note": "exact-real model; <= 3 nodes, K = 4 (quick) / 7 (thorough); pieces are processed independently and the depth bound "
+                "log4(max|D|/(flat/2))+1 follows from T(i)+(ii) on paper",
+        "technique": "symbolic execution of the Python source on z3 real terms + SMT (QF_LRA/QF_NRA) obligations per path; nondeterministic stub for the structural lemma; counterexample replay",
+    },
+    "C11": {
+        "text": "vb_scale is executed on a viewBox text of four opaque numeral atoms (values unbounded symbolic reals) with symbolic separator "
+                "characters, a preserveAspectRatio text generated from the SVG grammar (none + 9 alignments x absent/meet/slice x defer, case of "
+                "every letter and every separator symbolic) and symbolic document sizes; scale and offsets are proved (QF_NRA, "
+                "cross-multiplied) to satisfy SVG 1.1 7.8 restated in the harness; None, 0-3 tokens, a non-numeric token and non-positive "
+                "sizes must give the identity.",
+        "note": "numerals are atoms (float(atom) = its symbolic value, or ValueError when flagged non-numeric); exact-real model; grammar "
+                "values only",
+        "technique": "symbolic execution of the Python source on symbolic strings and z3 real terms + SMT (QF_NRA) obligations per path, counterexample replay",
+    },
     "C13": {
         "text": "spatial_grid.Index construction, removal and nearest() are executed on paths whose end points and the query are unbounded "
                 "symbolic reals, for concrete grid sizes, both reversal settings and every removal subset; per path z3 (QF_NRA) proves "
